@@ -347,15 +347,16 @@ def _coverage(ctx):
     start = run.functions.get('_unshare_network')
     stop = fin.functions.get('_cleanup_network')
     ctx.require(start is not None and stop is not None,
-                '_run._unshare_network / _finish._cleanup_network')
+                '_run._unshare_network / _finish._cleanup_network',
+                    rule='C16.3')
     created = Sym(ctx, start, _CREATE)
     created.walk(start.node.body)
     removed = Sym(ctx, stop, _REMOVE)
     removed.walk(stop.node.body)
     ctx.require(len(created.out) >= 9, 'registration descriptors of '
-                '_unshare_network (found %d)' % len(created.out))
+                '_unshare_network (found %d)' % len(created.out), rule='C16.3')
     ctx.require(len(removed.out) >= 6, 'removal descriptors of '
-                '_cleanup_network (found %d)' % len(removed.out))
+                '_cleanup_network (found %d)' % len(removed.out), rule='C16.3')
     # every removal happens only while the network resource is still
     # allocated to this container: after it was released the address (and
     # the ip-set entries keyed by it, which carry no owner) may belong to
@@ -446,7 +447,7 @@ def _entry_conditions(ctx, run, fin):
                            'shared_network)' % callee,
                            construct='%s entry condition' % callee)
     ctx.require(count >= 2, 'callers of the start / finish network '
-                            'routines')
+                            'routines', rule='C16.1')
     # the finish side is reached on every completed finish of a container
     # with a private network - also when an earlier step failed in a way its
     # handler tolerates
@@ -518,7 +519,7 @@ def _repeatable(ctx, stop, fin):
         graph, lambda c: isinstance(c.func, ast.Attribute) and
         c.func.attr in _REMOVE or isinstance(c.func, ast.Name) and
         c.func.id.startswith('_cleanup_'))]
-    ctx.require(removal_nodes, 'removals in _cleanup_network')
+    ctx.require(removal_nodes, 'removals in _cleanup_network', rule='C16.3')
     for node in graph.nodes:
         if node.kind != 'return':
             continue
@@ -536,7 +537,7 @@ def _repeatable(ctx, stop, fin):
     getters = [c for _n, c in K.nodes_calling(
         graph, lambda c: K.is_meth(c, 'get') and
         K.recv_text(c) in stop.params())]
-    ctx.require(getters, 'lookup of the network resource')
+    ctx.require(getters, 'lookup of the network resource', rule='C16.3')
     client = K.recv_text(getters[0])
     releases = [n for n, c in K.nodes_calling(
         graph, lambda c: K.is_meth(c, 'delete') and
@@ -559,7 +560,7 @@ def _repeatable(ctx, stop, fin):
     ctx.require(ua is not None, 'EndpointsMgr.unlink_all')
     ugraph = ctx.cfg(ua)
     loops = [n for n in ugraph.nodes if n.kind == 'for']
-    ctx.require(loops, 'scan loop of unlink_all')
+    ctx.require(loops, 'scan loop of unlink_all', rule='C16.3')
     for loop in loops:
         leaves = [e for e in K.loop_exit_edges(loop)
                   if e.kind != 'exc' and e.src is not loop and
@@ -662,7 +663,7 @@ def _ports(ctx):
     net = index.module(NET)
     table = net.consts.get('_SET_BY_ENVIRONMENT')
     ctx.require(prod_envs is not None and isinstance(table, ast.Dict),
-                'environment tables')
+                'environment tables', rule='C16.4')
     svc_prod = set(k.value for k, v in zip(table.keys, table.values)
                    if N.txt(v).endswith('SET_PROD_CONTAINERS'))
     ctx.ob('C16.4', alloc, None, prod_envs == svc_prod,
@@ -769,7 +770,7 @@ def _registrars(ctx):
                        'container finishes' % (name, mod.name),
                        construct='registrar %s.%s' % (mod.name, name))
     ctx.require(inside >= 10, 'registration calls inside the known '
-                              'registrars (found %d)' % inside)
+                              'registrars (found %d)' % inside, rule='C16.1')
 
 
 def check(ctx):
